@@ -11,13 +11,13 @@ SRC = ["h/h_c01.c", "wrap/w_c01_errctx.c"]
 FMT_WRAPS = ["vsnprintf", "vsprintf", "vfprintf", "vprintf", "vasprintf", "vdprintf", "vsyslog", "strftime",
              "snprintf", "sprintf", "fprintf", "printf", "asprintf", "dprintf", "sscanf", "__isoc99_sscanf",
              "fscanf", "__isoc99_fscanf", "syslog"]
-V_TEXT = ("V (35 values) = {0, 1, -1, 2^31-1, 2^31, -2^31, 2^32, 2^32+1, 2^63-1, -2^63, 0.0, -1.5, 1e308, \"\", \"a\", "
+V_TEXT = ("V (36 values) = {0, 1, -1, 2^31-1, 2^31, -2^31, 2^32, 2^32+1, 2^63-1, -2^63, 0.0, -1.5, 1e308, \"\", \"a\", "
           "shared \"abc\", malloc'd \"abc\", \"ZQ%nZQ%sZQ%x\", a 65600-byte string, ({}), ({1,\"a\"}), self-containing array, "
           "array with two holders, ([]), ([\"a\":1]), 0-byte buffer, 4-byte buffer, class instance, efun/local/functional "
-          "function pointer, this_object(), an object destructed after the arguments were pushed, undefined, ({destructed object})}; "
+          "function pointer, this_object(), an object destructed after the arguments were pushed, undefined, ({destructed object}), a second live object (fresh clone)}; "
           "nolong = V minus the 65600-byte string; l4 = {0,\"a\",65600-byte string,({1,\"a\"})}; "
-          "s16 = {0,1,-1,2^31,2^63-1,-2^63,-1.5,\"a\",taint,65600-byte,({1,\"a\"}),([\"a\":1]),4-byte buffer,class,local funptr,this_object()}; "
-          "s12 = s16 minus {-1.5, buffer, class, funptr}; s8 = {0,-1,2^63-1,\"a\",taint,({1,\"a\"}),([\"a\":1]),this_object()}; "
+          "s16 = {0,second live object,-1,2^31,2^63-1,-2^63,-1.5,\"a\",taint,65600-byte,({1,\"a\"}),([\"a\":1]),4-byte buffer,class,local funptr,this_object()}; "
+          "s12 = {0,1,-1,2^31,2^63-1,-2^63,\"a\",taint,65600-byte,({1,\"a\"}),([\"a\":1]),this_object()}; s8 = {0,-1,2^63-1,\"a\",taint,({1,\"a\"}),([\"a\":1]),this_object()}; "
           "s6 = {0,-1,2^63-1,malloc'd \"abc\",({1,\"a\"}),4-byte buffer}")
 
 # alphabets per kind (op/ef) and arity 0..4
@@ -32,7 +32,7 @@ TIERS = {
     ],
     "thorough": [
         ("main", dict(op0="full", op1="full", op2="full", op3="full", op4="s8",
-                      ef0="full", ef1="full", ef2="full", ef3="s16", ef4="s8")),
+                      ef0="full", ef1="full", ef2="full", ef3="s12", ef4="s8")),
     ],
 }
 DEADLINE = {"quick": 200, "thorough": 2100}
